@@ -17,7 +17,7 @@ from typing import Any, Callable, Dict, List, Optional, Tuple
 from mtsa.absint import K, R, S, U, V, State
 from mtsa.index import FunctionInfo, Repo, dotted, norm
 from mtsa.report import AnalysisError
-from .common import RepoInterp
+from .common import origin_token, RepoInterp
 
 TY = "monkeytype.typing"
 
@@ -163,9 +163,9 @@ class InferScenario:
             if attr == "__args__":
                 return obj.fields["args"]
             if attr == "__origin__":
-                return S("origin:" + obj.fields["origin"].v)
+                return origin_token(obj.fields["origin"].v)
         if isinstance(obj, S) and obj.name.startswith("mod:typing.") and attr == "__origin__":
-            return S("origin:" + obj.name[len("mod:typing."):])
+            return origin_token(obj.name[len("mod:typing."):])
         if isinstance(obj, (S,)) and attr in ("__args__",):
             st.pending = st.pending or "AttributeError"
             return U("no __args__")
